@@ -1,5 +1,5 @@
 """Property drivers: which rules decide which property, over which declarations."""
-from . import rules
+from . import rules, rules_arb
 from .rules import Report
 
 
@@ -51,6 +51,34 @@ def run_C12(rep, g):
         rules.check_deserialize(rep, g)
 
 
+def run_C14(rep, g):
+    if g.d['family'] == 'int' and 'Arbitrary' in g.d['derives']:
+        rules_arb.check_arbitrary_int(rep, g, equality=True)
+
+
+def run_C09(rep, g):
+    if 'Arbitrary' not in g.d['derives']:
+        return
+    fam = g.d['family']
+    if fam == 'int':
+        rules_arb.check_arbitrary_int(rep, g, equality=False)
+    elif fam == 'string':
+        rules_arb.check_arbitrary_string(rep, g)
+    elif fam == 'float':
+        rules_arb.check_arbitrary_float(rep, g)
+    else:
+        imp = rules_arb.arb_impl(g)
+        rep.ob('R-ARB-ANY', imp is not None and not g.has_validation(), g, 'Arbitrary on other types exists only without validation', {})
+        if imp is not None:
+            fn = g.impl_fn(imp, 'arbitrary')
+            outs = g.paths(fn)
+            rep.ob('R-ARB-ANY', all(o.kind == 'return' for o in outs), g, 'other types: arbitrary = inner arbitrary + new, no panic path', {})
+
+
+def run_C16(rep, g):
+    rules.check_messages(rep, g)
+
+
 def run_C05(rep, g):
     rules.check_no_bypass(rep, g)
     # every safe entry point that builds T runs the guards: the constructor itself (R-GUARD) ...
@@ -66,7 +94,7 @@ def crate_C05(rep, F, gens):
     return rules.check_ctor_sites(rep, F, gens)
 
 
-CRATE_PROPS = {'C05': crate_C05, 'C04': crate_C05, 'C12': crate_C05}
+CRATE_PROPS = {'C05': crate_C05, 'C04': crate_C05, 'C12': crate_C05, 'C09': crate_C05}
 
 from . import witcat
 W_PROPS = {'C05': witcat.c05_witnesses, 'C07': witcat.c07_witnesses, 'C12': witcat.c12_witnesses}
@@ -77,6 +105,9 @@ E_PROPS = {
     'C04': run_C04,
     'C06': run_C06,
     'C10': run_C10,
+    'C09': run_C09,
+    'C14': run_C14,
+    'C16': run_C16,
     'C05': run_C05,
     'C07': run_C07,
     'C12': run_C12,
